@@ -44,9 +44,20 @@ def build(model_module) -> Tuple[World, Interp, List[Tuple[FunctionInfo, Contrac
     for node, live in classes:
         q = f"{REL}::{node.name}.__eq__"
         fi = world.functions.get(q)
+        origin = "own"
         if fi is None:
-            continue
-        world.classes[node.name].methods["__eq__"] = q
+            # no __eq__ in the class body: the one the live class uses may be inherited from a base class of model.py (a shared
+            # implementation), or be the attrs-generated one (which would compare the random id_)
+            eqf = getattr(live, "__eq__", None)
+            code = getattr(eqf, "__code__", None)
+            if code is not None and os.path.realpath(code.co_filename) == os.path.realpath(os.path.join(REPO, REL)):
+                q = f"{REL}::{eqf.__qualname__}"
+                fi = world.functions.get(q)
+                origin = f"inherited from {eqf.__qualname__}" if fi is not None else f"{eqf.__qualname__} (not loadable)"
+            else:
+                origin = "not defined in generator/model.py (attrs-generated or foreign)"
+        if fi is not None:
+            world.classes[node.name].methods["__eq__"] = q
         structural = [a.name for a in attrs.fields(live) if a.name not in ANNOT]
         others = [("obj", c.name) for c, _ in classes if c.name != node.name][:3]
 
@@ -69,5 +80,5 @@ def build(model_module) -> Tuple[World, Interp, List[Tuple[FunctionInfo, Contrac
             spec,
             f"True iff other is a {node.name} and all structural fields are equal ({', '.join(structural)}); never raises",
         )
-        items.append((fi, c, q, {"class": node.name, "structural": structural}))
+        items.append((fi, c, f"{REL}::{node.name}.__eq__", {"class": node.name, "structural": structural, "origin": origin}))
     return world, interp, items
